@@ -322,7 +322,7 @@ def cancellation(ctx: Ctx, timing: bool = True):
     outer = repo.func(CAN, "CancelRequests.update")
     fn = repo.func(CAN, "CancelRequests.update._remove_from_sim")
     sim, rid = fn.params[:2]
-    T = f"{sim}.requests[{rid}].departure_time + env.config.sim.request_cancel_time_seconds"
+    T = f"{sim}.requests.get({rid}).departure_time + env.config.sim.request_cancel_time_seconds"  # (`requests[id]` reads as `.get(id)`, canon pass G)
 
     def label(p):
         if p.kind != "return":
